@@ -349,6 +349,16 @@ impl FieldParser {
 }
 
 impl TemplateField {
+    // The enterprise bit is stripped from `field_type_number` when a field specifier is
+    // decoded; it has to be set again on the wire whenever an enterprise number follows.
+    fn wire_type_number(&self) -> u16 {
+        if self.enterprise_number.is_some() {
+            self.field_type_number | 0x8000
+        } else {
+            self.field_type_number
+        }
+    }
+
     // If 65335, read 1 byte.
     // If that byte is < 255 that is the length.
     // If that byte is == 255 then read 2 bytes.  That is the length.
@@ -400,7 +410,7 @@ impl IPFix {
                 result_flowset.extend_from_slice(&template.field_count.to_be_bytes());
 
                 for field in template.fields.iter() {
-                    result_flowset.extend_from_slice(&field.field_type_number.to_be_bytes());
+                    result_flowset.extend_from_slice(&field.wire_type_number().to_be_bytes());
                     result_flowset.extend_from_slice(&field.field_length.to_be_bytes());
                     if let Some(enterprise) = field.enterprise_number {
                         result_flowset.extend_from_slice(&enterprise.to_be_bytes());
@@ -416,7 +426,7 @@ impl IPFix {
                     .extend_from_slice(&options_template.scope_field_count.to_be_bytes());
 
                 for field in options_template.fields.iter() {
-                    result_flowset.extend_from_slice(&field.field_type_number.to_be_bytes());
+                    result_flowset.extend_from_slice(&field.wire_type_number().to_be_bytes());
                     result_flowset.extend_from_slice(&field.field_length.to_be_bytes());
                     if let Some(enterprise) = field.enterprise_number {
                         result_flowset.extend_from_slice(&enterprise.to_be_bytes());
